@@ -49,6 +49,18 @@ META = {
     "C17": dict(engine="repro", technique="runtime monitoring: record/compare of complete fiber-switch traces (YACLIB_VERIF resume hook), client event logs, random-draw and injected-yield counts across re-runs, process boundaries (exec, ASLR, perturbed heap, wall-clock noise) and checkpoint/restore",
                 text="Held on the executions explored: 5 client programs x thousands of (seed, frequency, pick width, tick, CAS-fail frequency) configurations, three comparison kinds each.",
                 note="Anything that does not alter the resume sequence, virtual time, draw counts or client events is invisible to the comparison.", ref="DESIGN.md §3 C17"),
+    "C02": dict(engine="pipegen", technique="runtime monitoring against an executable reference model: generated pipeline programs (source x attach x signature x return kind incl. inner Future/SharedFuture/Task), callback log + final Result compared with a sequential interpreter",
+                text="Held on the programs explored: a stride sample (quick) / all (thorough) of the complete length-1 space plus hundreds to thousands of random pipelines of length 1-4, eager and lazy, C++20 and C++17.",
+                note="The interpreter in pipegen/gen.py is the trusted model of the documented routing rules; execution is single-threaded and deterministic.", ref="DESIGN.md §3 C02", category="exploration"),
+    "C05": dict(engine="pipegen+fiberx+rt", technique="runtime monitoring with fault enumeration: every generated pipeline is re-run for every rejection point k (k-th Submit dropped, from k on / only k) and compared with the interpreter (executor tag, Submit count, StopError routing); instrumented jobs with Call/Drop conservation over fiber schedules with a stopping thread",
+                text="Held on everything explored: rejection points are enumerated completely per program; Stop-vs-Submit interleavings are sampled.",
+                note="Executor identity is observed through a per-fiber/thread tag set by instrumented executors.", ref="DESIGN.md §3 C05", category="fault_enumeration"),
+    "C12": dict(engine="pipegen+fiberx", technique="runtime monitoring against the reference interpreter in lazy mode: 'started' flag logged by every callback, all start kinds and abandonment, eager-twin comparison, tracked functor release; fiber coroutine cells for co_await/Await starts",
+                text="Held on the programs explored (lazy half of the pipegen space, every start kind, drop at the end of every generated prefix).",
+                note="Cancellation semantics follow the C02 rules: the head sees StopError, recovery callbacks may recover.", ref="DESIGN.md §3 C12"),
+    "C20": dict(engine="pipegen+alloccount", technique="runtime monitoring: global operator new counter between two points of single-threaded runs; per-program step budget from the interpreter; allocation tables over input counts",
+                text="Held on everything measured: allocations <= steps for every generated pipeline; constant count per combinator/policy/form for n=2..64; zero for waits, Get, Strand submission, co_await.",
+                note="Counts are taken at -O0 (upper bound) and -O2, C++20 and C++17.", ref="DESIGN.md §3 C20"),
 }
 
 ALL = ["C%02d" % i for i in range(1, 21)]
